@@ -3,11 +3,13 @@ package checks
 import (
 	"bytes"
 	"fmt"
+	"io"
 	"math/big"
 	"math/rand"
 
 	"github.com/crate-crypto/go-ipa/bandersnatch/fp"
 	"github.com/crate-crypto/go-ipa/bandersnatch/fr"
+	"github.com/crate-crypto/go-ipa/banderwagon"
 	"github.com/crate-crypto/go-ipa/common"
 
 	"verif/mon"
@@ -281,8 +283,31 @@ func c16decode(c *mon.Ctx, b []byte, cls string) {
 		c.Fail("wrong-value/spare-capacity", "decoding from a slice with spare capacity gives another value", nil)
 	}
 	// ReadScalar: exactly the first 32 bytes, canonical little-endian
-	for _, step := range []int{64, 1, 7} {
-		rd := &errReader{data: b, step: step}
+	for _, step := range []int{64, 1, 7, -13} {
+		var rd io.Reader = &errReader{data: b, step: step}
+		if step < 0 {
+			// history: a non-canonical and a short read (both fail) come first; then this stream is delivered in two
+			// chunks and, between them, the reader itself reads another scalar and a point (two calls overlap)
+			step = -step
+			nc := ref.R.Bytes()
+			for i, j := 0, len(nc)-1; i < j; i, j = i+1, j-1 {
+				nc[i], nc[j] = nc[j], nc[i]
+			}
+			common.ReadScalar(bytes.NewReader(nc))
+			common.ReadScalar(bytes.NewReader(nc[:9]))
+			rd = &nestReader{data: b, chunk: step, at: 1, fn: func() {
+				var sc [32]byte
+				sc[0], sc[9] = 0x5a, byte(len(b))
+				s2, err := common.ReadScalar(&nestReader{data: sc[:], chunk: 11, at: -1})
+				if err != nil || s2 == nil || FrToBig(s2).Cmp(ref.FromLE(sc[:])) != 0 {
+					c.Fail("wrong-value/ReadScalar/nested", fmt.Sprintf("ReadScalar called from inside another stream's reader: err=%v", err), nil)
+				}
+				g := banderwagon.Generator.Bytes()
+				if p, err := common.ReadPoint(&nestReader{data: g[:], chunk: 5, at: -1}); err != nil || p.Bytes() != g {
+					c.Fail("wrong-value/ReadPoint/nested", fmt.Sprintf("ReadPoint called from inside a scalar stream's reader: err=%v", err), nil)
+				}
+			}}
+		}
 		s, err := common.ReadScalar(rd)
 		switch {
 		case len(b) < 32:
